@@ -154,12 +154,6 @@ def python_opinion(fmt_v, vals_v):
                     return None                     # Python rejects floats; Jsonnet truncates
                 if conv == "o" and "#" in m.group("flags"):
                     return None                     # 0o10 vs 010
-            elif conv in "eEfFgG":
-                if isinstance(val, (int, float)) and val == 0 and str(float(val)).startswith("-"):
-                    return None
-    if isinstance(pyvals, tuple):
-        # e E f F g G take the double itself
-        pyvals = tuple(pyvals)
     try:
         return ("ok", fmt % pyvals)
     except (TypeError, ValueError, OverflowError, KeyError):
@@ -227,12 +221,14 @@ def shape_problem(meta, actual):
         if not t.startswith("0x" if conv == "x" else "0X"):
             return "# flag: 0x prefix missing"
         t = t[2:]
+    if meta["zero"] and not meta["left"]:
+        t = re.sub(r"^0+(?=\d)", "", t)            # the zeros of the 0 flag
     if conv in "diuoxX":
         radix = {"o": 8, "x": 16, "X": 16}.get(conv, 10)
         digits = "0123456789abcdef"[:radix] if conv != "X" else "0123456789ABCDEF"
         if not t or any(ch not in digits for ch in t):
             return f"not a base-{radix} numeral: {short(t)}"
-        if prec >= 0 and len(t) < prec:
+        if prec >= 0 and len(t) < prec and not (meta["zero"] and not meta["left"]):
             return "fewer digits than the precision"
         got = Fraction(int(t, radix))
         want = abs(v).numerator // abs(v).denominator
